@@ -40,7 +40,7 @@ func histConfigs(tier string, seatsList []int, modes []string, blinds []pt.Table
 func init() {
 	register(&Check{
 		ID: "C01", Level: "model_checking",
-		Rule:        "multi-hand histories on a fresh real table per (seat count, mode, blind structure): every hand picks a line (fold-out default; check-down / everyone all-in with deck asc/desc/tie), at most one membership operation between hands (arrive, sit out = reserve without sitting in, re-buy of a busted player, top-up through PlayerReserve of any seated player, leave busted / live player, add-on) and one at the first wager request (arrive, sit out, add-on / re-buy of a participant, top-up of anybody, departure of a non-participant / participant); all histories with at most `bound` non-default picks are executed; a harness ledger (chips brought in - taken away) is compared with the bankroll sum whenever no hand is in progress and each settlement is checked against bankroll at open + result + top-ups",
+		Rule:        "multi-hand histories on a fresh real table per (seat count, mode, blind structure): every hand picks a line (fold-out default; check-down / everyone all-in with deck asc/desc/tie), at most one membership operation between hands (arrive, sit out = reserve without sitting in, re-buy of a busted player, top-up through PlayerReserve of any seated player, leave busted / live player, add-on) and one at the first wager request (arrive, sit out, add-on / re-buy of a participant, top-up of anybody, departure of a non-participant / participant); all histories with at most `bound` non-default picks are executed; a harness ledger (chips brought in - taken away) is compared with the bankroll sum whenever no hand is in progress and each settlement is checked against bankroll at open + result + top-ups; plus schedule exploration (fine mode) of a top-up racing the opening of a hand and of a re-buy / add-on / arrival / departure of a bystander racing the settlement of a hand (ledger only)",
 		Assumptions: []string{"stacks 3/7/12, newcomers 5, add-ons 3; blinds 1/2 (+ante 1 / dealer-blind 2)", "membership operations are placed at quiescent points (status standby before the continue interval elapses, and the first wager request)"},
 		Suites: func(tier string) []*Suite {
 			bound, hands := 2, 3
@@ -62,6 +62,7 @@ func init() {
 					})
 				}})
 			}
+			ss = append(ss, raceSuites("c01/", tier, true, func(h *hist) []Monitor { return []Monitor{&monLedger{h: h}} })...)
 			return append(ss, c01SchedSuites(tier)...)
 		},
 	})
